@@ -151,6 +151,22 @@ func c19Make(kind string, r *rng, depth int) c19Val {
 		}
 		s := byte(r.intn(39))
 		return c19Val{variant.Decimal16(x, s), nil, false, c19Prim(10, append([]byte{s}, x[:]...))}
+	case "dec4s", "dec8s", "dec16s": // scale 2, magnitudes around the byte boundaries (what decimal typed_value columns can hold)
+		x := pick(r, []int64{128, 40000, -129, -256, 12345, -1, 0, 255, 32768, -32769, 127, -128, 8388608, -8388609})
+		switch kind {
+		case "dec4s":
+			return c19Val{variant.Decimal4(int32(x), 2), nil, false, c19Prim(8, append([]byte{2}, le32b(uint32(int32(x)))...))}
+		case "dec8s":
+			return c19Val{variant.Decimal8(x, 2), nil, false, c19Prim(9, append([]byte{2}, le64b(uint64(x))...))}
+		}
+		var b [16]byte
+		binary.LittleEndian.PutUint64(b[:8], uint64(x))
+		if x < 0 {
+			for i := 8; i < 16; i++ {
+				b[i] = 0xFF
+			}
+		}
+		return c19Val{variant.Decimal16(b, 2), nil, false, c19Prim(10, append([]byte{2}, b[:]...))}
 	case "date":
 		x := int32(r.next() % 40000)
 		return c19Val{variant.Date(x), nil, false, c19Prim(11, le32b(uint32(x)))}
@@ -360,6 +376,14 @@ func c19Node(kind string) (parquet.Node, string) {
 		return mk(parquet.Leaf(parquet.ByteArrayType)), "binary"
 	case "date":
 		return mk(parquet.Date()), "date"
+	case "dec-bytes":
+		return mk(parquet.Decimal(2, 30, parquet.ByteArrayType)), ""
+	case "dec-flba":
+		return mk(parquet.Decimal(2, 30, parquet.FixedLenByteArrayType(16))), ""
+	case "dec-int32":
+		return mk(parquet.Decimal(2, 9, parquet.Int32Type)), ""
+	case "dec-int64":
+		return mk(parquet.Decimal(2, 18, parquet.Int64Type)), ""
 	case "obj":
 		return mk(parquet.Group{"a": parquet.Leaf(parquet.Int32Type), "name": parquet.String()}), ""
 	case "obj-nested":
@@ -380,7 +404,8 @@ func c19File(tr *tracer, sc *c19Scenario, r *rng) {
 	// the values: every kind once, plus extra values of the kinds the schema shreds
 	kinds := append([]string{}, c19Kinds...)
 	kinds = append(kinds, "obj-nested", "obj-flat", "arr-mixed", "arr-obj", "int32", "string-short", "obj-nested",
-		"int64", "int64", "int64", "int64", "int32", "int32", "int16", "int8", "double", "double", "float", "float", "true", "false", "binary", "date", "string-long")
+		"int64", "int64", "int64", "int64", "int32", "int32", "int16", "int8", "double", "double", "float", "float", "true", "false", "binary", "date", "string-long",
+		"dec4s", "dec4s", "dec4s", "dec8s", "dec8s", "dec8s", "dec16s", "dec16s", "dec16s", "dec16s", "dec16s", "dec16s")
 	vals := []c19Val{}
 	recs := []c19Rec{}
 	for i, k := range kinds {
@@ -444,7 +469,7 @@ func c19File(tr *tracer, sc *c19Scenario, r *rng) {
 	for _, mode := range []string{"typed"} {
 		rschema := schema
 		if mode == "reshred" {
-			other := map[string]string{"none": "obj", "string": "int32", "int32": "string", "int64": "int32", "double": "obj", "float": "double", "boolean": "string",
+			other := map[string]string{"dec-bytes": "none", "dec-flba": "none", "dec-int32": "none", "dec-int64": "none", "none": "obj", "string": "int32", "int32": "string", "int64": "int32", "double": "obj", "float": "double", "boolean": "string",
 				"binary": "string", "date": "int32", "obj": "obj-nested", "obj-nested": "obj", "list-int32": "list-obj", "list-obj": "list-int32", "obj-list": "obj"}[sc.Schema]
 			n2, _ := c19Node(other)
 			rschema = parquet.NewSchema("c19", parquet.Group{"id": parquet.Leaf(parquet.Int32Type), "var": n2})
